@@ -20,7 +20,7 @@ import (
 	"verifharness/rendergen"
 )
 
-func main() { Main("C20", checkC20, rendergen.Gen) }
+func main() { Main("C20", checkC20, rendergen.Gen, stateGen) }
 
 func triTerm(t render.TriangleI) string {
 	return fmt.Sprintf("(%s,%s,%s)", CZ(t[0]), CZ(t[1]), CZ(t[2]))
@@ -199,6 +199,9 @@ func checkC20(c *Ctx, r *Report) error {
 		}
 		delaunayCase(r, stratum, vs)
 	}
+	// near-collinear hull clusters, squeezed to the boundary of the (scale-aware, exactly decided) class: nch.go.
+	// Own random stream, so that the strata above see the same inputs as before.
+	nchStratum(r, NewRng(c.Seed^0xC20C20C20), TierN(c.Tier, 50, 600, 300), TierN(c.Tier, 30, 300, 100))
 	// the slow reference on its own: too few points (error), degenerate sets (collinear, lattice =
 	// cocircular, duplicates), unsorted order, and generic small sets: model vs Go triangle for triangle
 	ns := TierN(c.Tier, 60, 1200, 120)
@@ -272,10 +275,10 @@ func checkC20(c *Ctx, r *Report) error {
 	if err := pcases.Write(c.Out); err != nil {
 		return err
 	}
-	r.Rule = "equals cases: random index-triple sets (sizes 0..40, few distinct vertex ids so that leading indices collide) against a randomly reordered and per-triple rotated copy, or a copy with one winding flipped / one index changed; non-trivial = at least 2 triangles, distinct by (a,b). delaunay cases: random dyadic point sets (3..200 points, offset and clustered strata) checked with exact rational predicates; non-trivial = robustly in general position (relative orientation/incircle margins > 1e-7) so the exact answer is well defined; distinct by point list."
+	r.Rule = "equals cases: random index-triple sets (sizes 0..40, few distinct vertex ids so that leading indices collide) against a randomly reordered and per-triple rotated copy, or a copy with one winding flipped / one index changed; non-trivial = at least 2 triangles, distinct by (a,b). delaunay cases: random dyadic point sets (3..200 points, offset and clustered strata) checked with exact rational predicates; non-trivial = robustly in general position (relative orientation/incircle margins > 1e-7) so the exact answer is well defined; distinct by point list. hull-cluster cases: 3..5 close, nearly collinear hull vertices (spacing 1e-1..1e-4 of the extent, defect 1e-3..1e-12, bumps out / in / alternating, axis-parallel or slanted side, optionally on a long nearly straight side, scales 1/8..8), the defect log-bisected down to the boundary of the scale-aware class that is decided in exact integer arithmetic (no super-triangle vertex within sqrt(2) radii of an exact Delaunay triangle's circumcentre, every in-circle decision with relative margin >= 1e-14 x conditioning and absolute margin >= 1e-9); inside that class: exact empty-circle test without margin, 2n-2-h, fast = slow."
 	r.Trusted = append(r.Trusted, "hand model coq/Algo/Canon.v of TriangleI.Canonical/Less/Equals tied by differential execution (cases_canon_*.v)",
 		"hand model coq/Algo/Delaunay.v of Delaunay2d / superTriangle / InCircumcircle / Circumcenter at primitive floats: the returned triangle list (order included) and the predicate values compared exactly (cases_delaunay_*.v, cases_incircle_*.v)",
-		"exact rational Delaunay oracles (math/big) in harness/cmd/vcheck/c20.go")
+		"exact rational Delaunay oracles (math/big) in harness/cmd/c20/main.go, exact integer in-circle / orientation predicates and the class test of the hull-cluster stratum in harness/cmd/c20/nch.go")
 	r.Assumptions = append(r.Assumptions, "whole-triangulation correctness (hull coverage, 2n-2-h, fast = slow) is searched with exact oracles, not proved (C20 partial)",
 		"point sets that are not robustly in general position are counted but not asserted")
 	return nil
@@ -395,13 +398,21 @@ func ptsKey(vs v2.VecSet) string {
 
 func delaunayCase(r *Report, stratum string, in v2.VecSet) {
 	n := len(in)
-	key := "delaunay:" + ptsKey(in)
 	// robustly general position, and no point closer than 1e-4 (relative) to a hull edge line:
 	// thinner hull triangles are the listed known finding (finite super triangle)
 	robust := n <= 45 && robustGP(in, 1e-7) && !nearHullEdge(in, 1e-4)
 	if strings.HasPrefix(stratum, "corpus") {
 		robust = n <= 45 && robustGP(in, 1e-7)
 	}
+	delaunayCore(r, stratum, in, robust, false)
+}
+
+// delaunayCore: robust = the set is inside the class where the exact answer is claimed (count and fast = slow
+// are asserted); exact = the class was decided by the scale-aware exact test of nch.go, so that ANY input point
+// strictly inside a circumcircle (exact integer in-circle test, no margin) is a failure.
+func delaunayCore(r *Report, stratum string, in v2.VecSet, robust, exact bool) {
+	n := len(in)
+	key := "delaunay:" + ptsKey(in)
 	r.Case("delaunay/"+stratum, key, robust)
 	// Delaunay2d sorts its argument in place: give it a copy and keep that copy for indices
 	vs := append(v2.VecSet{}, in...)
@@ -441,6 +452,20 @@ func delaunayCase(r *Report, stratum string, in v2.VecSet) {
 	}
 	mn, mx := vs.Min(), vs.Max()
 	L := math.Max(mx.X-mn.X, mx.Y-mn.Y)
+	if exact {
+		tl := make([][3]int, len(ts))
+		for i, t := range ts {
+			tl[i] = [3]int(t)
+			if t[0] < 0 || t[1] < 0 || t[2] < 0 || t[0] >= n || t[1] >= n || t[2] >= n {
+				r.Violate(key, fmt.Sprintf("triangle %v has an index outside [0,%d)", t, n), input)
+				return
+			}
+		}
+		if bad, what := exactEmptyCircle(vs, tl); bad {
+			r.Violate(key, what+fmt.Sprintf(" (%d triangles, 2n-2-h=%d)", len(ts), 2*n-2-hullCount(vs)), input)
+			return
+		}
+	}
 	// empty circumcircle, with a margin so that only well-defined failures count
 	for _, t := range ts {
 		a, b, cc := vs[t[0]], vs[t[1]], vs[t[2]]
